@@ -320,7 +320,7 @@ func runTimeout(bin string) time.Duration {
 	if bin == binRace {
 		return time.Duration(ev.EnvInt("C06_RACE_TIMEOUT_S", 420, 600)) * time.Second
 	}
-	return time.Duration(ev.EnvInt("C06_RUN_TIMEOUT_S", 180, 300)) * time.Second
+	return time.Duration(ev.EnvInt("C06_RUN_TIMEOUT_S", 240, 300)) * time.Second
 }
 
 func writeModule(c *Case, dir string) error {
